@@ -28,7 +28,9 @@ UNPROVED = []
 RULE = ("well-bracketed programs generated from the seed: nesting depth <= 4 (quick) / 8 (thorough), 3-5 named "
         "accountants plus the lazily created defaults (which may themselves be entered or set later), set_default / "
         "pop_default / load_default / peek interleaved, library calls (tools and estimators) with and without explicit "
-        "accountant, `raise` propagating through one or more blocks into a `try` or to the top; never re-entering an "
+        "accountant (drawn from a menu of every tool x axis/keepdims/multi-quantile variant and eight estimators; the whole "
+        "menu is also swept deterministically on every run), accountants that are plain or instances of user subclasses, "
+        "`raise` propagating through one or more blocks into a `try` or to the top; never re-entering an "
         "open accountant. Non-trivial: depth >= 2, a default rewrite inside a block and an implicit call; distinct by "
         "the encoded program")
 
@@ -37,21 +39,92 @@ _ARR = np.array([0.2, 0.7, 0.0, 1.0])
 _X = np.array([[0.1, 0.2], [0.5, 0.9], [0.3, 0.3], [0.8, 0.1]])
 _Y = np.array([0, 1, 0, 1])
 
-TOOLS = [
-    ("count_nonzero", lambda e, a: dp.tools.count_nonzero(_ARR, epsilon=e, accountant=a)),
-    ("mean", lambda e, a: dp.tools.mean(_ARR, epsilon=e, bounds=(0, 1), accountant=a)),
-    ("sum", lambda e, a: dp.tools.sum(_ARR, epsilon=e, bounds=(0, 1), accountant=a)),
-    ("histogram", lambda e, a: dp.tools.histogram(_ARR, epsilon=e, bins=3, range=(0, 1), accountant=a)),
-    ("quantile", lambda e, a: dp.tools.quantile(_ARR, 0.5, epsilon=e, bounds=(0, 1), accountant=a)),
-    ("var", lambda e, a: dp.tools.var(_ARR, epsilon=e, bounds=(0, 1), accountant=a)),
-    ("load+spend", lambda e, a: BA.load_default(a).spend(e, 0)),
+_X2 = np.array([[0.1, 0.9], [0.5, 0.3], [0.7, 0.6]])
+_ARRN = np.array([0.2, np.nan, 0.0, 1.0])
+T = dp.tools
+
+
+def _menu():
+    """every tool x {axis=None, axis reducing every dimension of 1-D / 2-D data, axis=0 on 2-D, keepdims=True,
+    multi-quantile}, the histograms, a direct load_default+spend, and a few estimator fits.  Each entry is
+    (name, call(eps, accountant), cheap?)."""
+    m = []
+    shapes = [
+        ("1d", lambda a: a[:, 0], {}),
+        ("1d:axis=0", lambda a: a[:, 0], {"axis": 0}),
+        ("1d:axis=-1", lambda a: a[:, 0], {"axis": -1}),
+        ("2d:axis=(0,1)", lambda a: a, {"axis": (0, 1)}),
+        ("2d:axis=0", lambda a: a, {"axis": 0}),
+        ("2d:axis=1", lambda a: a, {"axis": 1}),
+        ("1d:keepdims", lambda a: a[:, 0], {"keepdims": True}),
+        ("2d:axis=0:keepdims", lambda a: a, {"axis": 0, "keepdims": True}),
+    ]
+    for name in ("mean", "var", "std", "sum", "nanmean", "nanvar", "nanstd", "nansum"):
+        f = getattr(T, name)
+        for sn, sel, kw in shapes:
+            m.append((f"{name}:{sn}", lambda e, a, f=f, sel=sel, kw=kw: f(sel(_X2), epsilon=e, bounds=(0, 1), accountant=a, **kw), True))
+    for sn, sel, kw in shapes:
+        m.append((f"count_nonzero:{sn}", lambda e, a, sel=sel, kw=kw: T.count_nonzero(sel(_X2) > 0.4, epsilon=e, accountant=a, **kw), True))
+    for name, q in (("quantile", 0.3), ("percentile", 30), ("median", None)):
+        f = getattr(T, name)
+        for sn, sel, kw in shapes:
+            if q is None:
+                m.append((f"{name}:{sn}", lambda e, a, f=f, sel=sel, kw=kw: f(sel(_X2), epsilon=e, bounds=(0, 1), accountant=a, **kw), True))
+            else:
+                m.append((f"{name}:{sn}", lambda e, a, f=f, q=q, sel=sel, kw=kw: f(sel(_X2), q, epsilon=e, bounds=(0, 1), accountant=a, **kw), True))
+    m.append(("quantile:multi", lambda e, a: T.quantile(_ARR, [0.25, 0.75], epsilon=e, bounds=(0, 1), accountant=a), True))
+    m.append(("quantile:multi:axis=0", lambda e, a: T.quantile(_ARR, [0.25, 0.75], epsilon=e, bounds=(0, 1), axis=0, accountant=a), True))
+    m.append(("percentile:multi", lambda e, a: T.percentile(_ARR, [10, 90], epsilon=e, bounds=(0, 1), accountant=a), True))
+    m.append(("nanmean:nan-data", lambda e, a: T.nanmean(_ARRN, epsilon=e, bounds=(0, 1), accountant=a), True))
+    m.append(("histogram", lambda e, a: T.histogram(_ARR, epsilon=e, bins=3, range=(0, 1), accountant=a), True))
+    m.append(("histogram2d", lambda e, a: T.histogram2d(_X[:, 0], _X[:, 1], epsilon=e, bins=2, range=[(0, 1), (0, 1)], accountant=a), True))
+    m.append(("histogramdd", lambda e, a: T.histogramdd(_X, epsilon=e, bins=2, range=[(0, 1), (0, 1)], accountant=a), True))
+    m.append(("load+spend", lambda e, a: BA.load_default(a).spend(e, 0), True))
     # estimators resolve the accountant in the constructor; constructed and fitted in place
-    ("GaussianNB", lambda e, a: dp.models.GaussianNB(epsilon=e, bounds=(0, 1), accountant=a).fit(_X, _Y)),
-    ("StandardScaler", lambda e, a: dp.models.StandardScaler(epsilon=e, bounds=(0, 1), accountant=a).fit(_X)),
-    ("PCA", lambda e, a: dp.models.PCA(n_components=1, epsilon=e, bounds=(0, 1), data_norm=1.5, centered=True,
-                                        accountant=a).fit(_X)),
-]
-N_CHEAP = 7
+    MD = dp.models
+    m.append(("GaussianNB", lambda e, a: MD.GaussianNB(epsilon=e, bounds=(0, 1), accountant=a).fit(_X, _Y), False))
+    m.append(("StandardScaler", lambda e, a: MD.StandardScaler(epsilon=e, bounds=(0, 1), accountant=a).fit(_X), False))
+    m.append(("PCA", lambda e, a: MD.PCA(n_components=1, epsilon=e, bounds=(0, 1), data_norm=1.5, centered=True,
+                                         accountant=a).fit(_X), False))
+    m.append(("KMeans", lambda e, a: MD.KMeans(2, epsilon=e, bounds=(0, 1), accountant=a).fit(_X), False))
+    m.append(("LinearRegression", lambda e, a: MD.LinearRegression(epsilon=e, bounds_X=(0, 1), bounds_y=(0, 1),
+                                                                   accountant=a).fit(_X, _Y.astype(float)), False))
+    m.append(("LogisticRegression", lambda e, a: MD.LogisticRegression(epsilon=e, data_norm=1.5, accountant=a).fit(_X, _Y), False))
+    m.append(("DecisionTreeClassifier", lambda e, a: MD.DecisionTreeClassifier(max_depth=2, epsilon=e, bounds=(0, 1),
+                                                                               classes=[0, 1], accountant=a).fit(_X, _Y), False))
+    m.append(("RandomForestClassifier", lambda e, a: MD.RandomForestClassifier(2, max_depth=2, epsilon=e, bounds=(0, 1),
+                                                                               classes=[0, 1], accountant=a).fit(_X, _Y), False))
+    return m
+
+
+TOOLS = _menu()
+CHEAP = [i for i, t in enumerate(TOOLS) if t[2]]
+FAST = [i for i in CHEAP if "2d:axis=0" not in TOOLS[i][0] and "2d:axis=1" not in TOOLS[i][0]]   # single-cell results
+MODELS = [i for i, t in enumerate(TOOLS) if not t[2]]
+
+# accountant kinds: 0 = plain BudgetAccountant, 1 = trivial subclass, 2 = subclass of a subclass, 3 = subclass overriding
+# spend to keep an audit trail.  The property (and the model) does not distinguish them.  The classes are created afresh
+# for every program, so that nothing a run leaves on a class can leak into the next program (replays are exact).
+N_KINDS = 4
+
+
+def _make_classes():
+    class AuditedAccountant(BA):
+        pass
+
+    class TeamAccountant(AuditedAccountant):
+        pass
+
+    class LoggingAccountant(BA):
+        def spend(self, epsilon, delta):
+            self.__dict__.setdefault("audit", []).append((epsilon, delta))
+            return super().spend(epsilon, delta)
+    return [BA, AuditedAccountant, TeamAccountant, LoggingAccountant]
+
+
+def _kinds(k):
+    """FIXED / REENTRANT / old replay records give a count: all plain"""
+    return [0] * k if isinstance(k, int) else list(k)
 
 
 class Boom(Exception):
@@ -142,6 +215,8 @@ def run_oracle(items):
                 stack[-1] = None
             elif k == "call":
                 emit("c:" + (it[1] if it[1] else resolve()), "explicit" if it[1] else "implicit")
+                last[0] = ("call-explicit:" if it[1] else "call-implicit:") + TOOLS[it[2]][0].split(":")[0]
+                continue
             elif k == "load":
                 emit("l:" + (it[1] if it[1] else resolve()), "explicit" if it[1] else "implicit")
             elif k == "peek":
@@ -182,12 +257,14 @@ def run_oracle(items):
 
 # ------------------------------------------------------------------ the real thing
 
-def run_real(items, n_named):
-    """execute on real BudgetAccountant objects; returns (events, flag, final)"""
+def run_real(items, kinds):
+    """execute on real BudgetAccountant (or subclass) objects; returns (events, flag, final)"""
     ev = []
+    kinds = _kinds(kinds)
     with seams.fresh_default_accountant(), warnings.catch_warnings():
         warnings.simplefilter("ignore")
-        named = [BA() for _ in range(n_named)]
+        classes = _make_classes()
+        named = [classes[k]() for k in kinds]
         fresh = []
         n_call = [0]
 
@@ -223,14 +300,18 @@ def run_real(items, n_named):
                     TOOLS[it[2]][1](eps, obj(it[1]) if it[1] else None)
                     ident(BA._default)                      # registers a default created by this call
                     moved = []
+
+                    def amount_ok(new):
+                        # one spend of eps, or (multi-cell results) several spends that add up to eps; never any delta
+                        return all(d == 0 for _, d in new) and abs(sum(e for e, _ in new) - eps) <= 1e-9 * eps
                     for a, b in zip(known, before):
                         sb = a.spent_budget
                         if len(sb) != b:
-                            moved.append(ident(a) + ("" if len(sb) == b + 1 and tuple(sb[-1]) == (eps, 0) else "!amount"))
+                            moved.append(ident(a) + ("" if amount_ok(sb[b:]) else "!amount"))
                     for a in fresh[len(known) - len(named):]:
                         sb = a.spent_budget
                         if len(sb):
-                            moved.append(ident(a) + ("" if len(sb) == 1 and tuple(sb[-1]) == (eps, 0) else "!amount"))
+                            moved.append(ident(a) + ("" if amount_ok(sb) else "!amount"))
                     ev.append("c:" + ("+".join(moved) if moved else "nobody"))
                 elif k == "load":
                     ev.append("l:" + ident(BA.load_default(obj(it[1]) if it[1] else None)))
@@ -299,7 +380,11 @@ def classify(ev_o, meta, flag_o, fin_o, ev_r, flag_r, fin_r):
             return "C16:pop-default-wrong-result", f"event {i}: pop_default() should return {a[2:]}, returned {b[2:]}", i
         if kind == "k":
             sig = {"after-set": "C16:set-default-ineffective", "after-pop": "C16:pop-default-does-not-clear",
-                   "after-call": "C16:call-rewrites-default", "after-load": "C16:call-rewrites-default"}.get(m, "C16:default-drift")
+                   "after-load": "C16:load-rewrites-default"}.get(m, "C16:default-drift")
+            if m.startswith("after-call-explicit:"):
+                sig = "C16:explicit-call-rewrites-default:" + m.split(":", 1)[1]
+            elif m.startswith("after-call-implicit:"):
+                sig = "C16:call-rewrites-default:" + m.split(":", 1)[1]
             return sig, f"event {i}: {m}: the default should be {a[2:]}, it is {b[2:]}", i
         if kind == "t":
             sig = "C16:exception-swallowed" if a == "t:boom" else "C16:unexpected-exception"
@@ -318,9 +403,20 @@ def classify(ev_o, meta, flag_o, fin_o, ev_r, flag_r, fin_r):
 
 def gen_program(r, max_depth, thorough):
     n_named = r.randint(3, 5)
+    mode = r.u01()
+    if mode < 0.3:
+        kinds = [0] * n_named                                   # all plain
+    elif mode < 0.45:
+        kinds = [r.randint(1, N_KINDS - 1)] * n_named           # all of one subclass
+    else:
+        kinds = [r.randint(0, N_KINDS - 1) for _ in range(n_named)]
     target = r.randint(1, max_depth)
     p_block = r.choice([0.2, 0.3, 0.45])
-    n_tools = len(TOOLS) if (thorough and r.chance(0.3)) else N_CHEAP
+    p_model = 0.10 if thorough else 0.03
+
+    def tool():
+        u = r.u01()
+        return r.choice(MODELS) if u < p_model else (r.choice(CHEAP) if u < p_model + 0.2 else r.choice(FAST))
     budget = [r.randint(6, 36)]
     sim = {"stack": [None], "fresh": 0}
     stats = {"depth": 0, "rewrite_in_block": False, "implicit": False, "raise": False, "fresh_entered": False}
@@ -362,11 +458,11 @@ def gen_program(r, max_depth, thorough):
             u = r.u01()
             if u < 0.40:
                 if r.chance(0.4):
-                    items.append(["call", r.choice(ids()), r.randint(0, n_tools - 1)])
+                    items.append(["call", r.choice(ids()), tool()])
                 else:
                     resolve()
                     stats["implicit"] = True
-                    items.append(["call", None, r.randint(0, n_tools - 1)])
+                    items.append(["call", None, tool()])
             elif u < 0.50:
                 if r.chance(0.3):
                     items.append(["load", r.choice(ids())])
@@ -393,7 +489,8 @@ def gen_program(r, max_depth, thorough):
         return items, False
 
     items, _ = gen_list(0, [])
-    return n_named, items, stats
+    stats["subclass"] = any(kinds)
+    return kinds, items, stats
 
 
 FIXED = [
@@ -443,11 +540,46 @@ def direct(n_named, items):
 def report(ctx, n_named, items, shrunk_from=None):
     inst, (ev_r, flag_r, fin_r), (ev_o, flag_o, fin_o), bad = direct(n_named, items)
     sig, what, idx = bad
-    ctx.violation(sig, f"{what}; program `{encode(inst)}` with {n_named} accountants",
-                  {"n_named": n_named, "items": items, "program": encode(inst), "event_index": idx,
+    kinds = _kinds(n_named)
+    kind_names = ["BudgetAccountant", "subclass", "sub-subclass", "subclass overriding spend"]
+    calls = _calls_of(items)
+    ctx.violation(sig, f"{what}; program `{encode(inst)}`; accountants n0.. are {[kind_names[k] for k in kinds]}"
+                       + (f"; library calls in order: {calls}" if calls else ""),
+                  {"n_named": kinds, "items": items, "program": encode(inst), "calls": calls, "event_index": idx,
                    "expected": ev_o[max(0, idx - 3):idx + 2], "observed": ev_r[max(0, idx - 3):idx + 2],
                    "expected_flag": flag_o, "observed_flag": flag_r, "expected_final": fin_o, "observed_final": fin_r,
                    "shrunk_from": shrunk_from})
+
+
+def _calls_of(items):
+    out = []
+    for it in items:
+        if it[0] == "call":
+            out.append(TOOLS[it[2]][0] + ("(accountant=%s)" % it[1] if it[1] else "()"))
+        elif it[0] == "block":
+            out += _calls_of(it[2])
+        elif it[0] == "try":
+            out += _calls_of(it[1])
+    return out
+
+
+def sweep_programs():
+    """deterministic part of every run: every menu entry with an explicit accountant (no default at all; inside a
+    block under a set default) and without one; every accountant kind entered with and without a prior default, twice"""
+    progs = []
+    for t in range(len(TOOLS)):
+        k = [(t + j) % N_KINDS for j in range(3)]
+        progs.append((k, [["call", "n0", t], ["call", None, t]]))
+        progs.append((k, [["set", "n1"], ["block", "n0", [["call", "n2", t], ["call", None, t]]], ["call", None, t]]))
+    for kind in range(N_KINDS):
+        for other in (0, kind):
+            k = [kind, other, kind]
+            progs.append((k, [["block", "n0", [["call", None, 0]]], ["call", None, 0]]))
+            progs.append((k, [["set", "n1"], ["block", "n0", [["call", None, 0]]], ["block", "n2", [["call", None, 0]]],
+                              ["block", "n0", [["block", "n2", [["pop"]]], ["call", None, 0]]], ["call", None, 0]]))
+            progs.append((k, [["block", "n1", [["try", [["block", "n0", [["raise"]]]]], ["call", None, 0],
+                                               ["block", "n2", [["raise"]]]]]]))
+    return progs
 
 
 def _variants(items):
@@ -488,22 +620,43 @@ def check_one(ctx, n_named, items, fails):
     inst, real, orc, bad = direct(n_named, items)
     if bad:
         fails.append((bad[0], n_named, items))
-    return inst, real, orc
+    return inst, real, orc, (bad[0] if bad else None)
+
+
+def _open_signatures():
+    from .. import core
+    return {k["signature"] for k in core.load_known().get("open", []) if k.get("property") == PROPERTY}
+
+
+def _witness_forest(ctx):
+    t = next(i for i, x in enumerate(TOOLS) if x[0] == "RandomForestClassifier")
+    bad = direct([0], [["call", "n0", t]])[3]
+    return (bad is not None and bad[0] == "C16:explicit-call-rewrites-default:RandomForestClassifier",
+            "RandomForestClassifier(accountant=a).fit(X, y) with no default in force installs a new process-wide default "
+            "accountant (sklearn's __sklearn_tags__ builds a throwaway DecisionTreeClassifier(), whose constructor calls "
+            "load_default(None)); `a` is charged correctly, the new default is never charged")
+
+
+WITNESSES = {"C16:explicit-call-rewrites-default:RandomForestClassifier": _witness_forest}
 
 
 def check(ctx):
     r = ctx.fork("programs")
     thorough = ctx.tier == "thorough"
     max_depth = 8 if thorough else 4
-    n = ctx.budget(2500, 25000)
-    progs = [(k, it, None) for k, it in FIXED]
+    n = ctx.budget(1500, 15000)
+    progs = [(k, it, None) for k, it in FIXED] + [(k, it, None) for k, it in sweep_programs()]
+    ctx.count("menu_entries", len(TOOLS))
     for _ in range(n):
         progs.append(gen_program(r, max_depth, thorough))
     lines, reals, oracles = [], [], []
     depth_hist = {}
     fails = []
+    badsigs = []
+    open_sigs = _open_signatures()
     for n_named, items, stats in progs:
-        inst, real, orc = check_one(ctx, n_named, items, fails)
+        inst, real, orc, badsig = check_one(ctx, n_named, items, fails)
+        badsigs.append(badsig)
         lines.append(encode(inst))
         reals.append(real)
         oracles.append(orc)
@@ -515,6 +668,8 @@ def check(ctx):
                 ctx.count("programs_with_raise")
             if stats["fresh_entered"]:
                 ctx.count("programs_entering_lazy_default")
+            if stats["subclass"]:
+                ctx.count("programs_with_subclass_accountants")
     # report failures: one shrunk representative per signature first (the runner prints the first), then the rest
     seen = set()
     for sig, n_named, items in fails:
@@ -531,7 +686,10 @@ def check(ctx):
     # the re-entrant probe (outside the property's hypothesis; reported only)
     probe_lines = [encode(instrument(it)) for _, it in REENTRANT]
     outs = leanio.run_driver("Scope", lines + probe_lines)
-    for line, real, orc, out in zip(lines, reals, oracles, outs):
+    for line, real, orc, out, badsig in zip(lines, reals, oracles, outs, badsigs):
+        if badsig is not None and badsig in open_sigs:
+            ctx.count("programs_failing_only_by_an_open_known_finding")     # reported as KNOWN-FINDING, not compared
+            continue
         if out == "bad-op":
             ctx.disagree("scope.encode", line, out, "parse failure")
             continue
